@@ -173,7 +173,7 @@ theorem stepM_none_abs (d : Decl V) (h : Hist V) (i : Nat) (act : Action V) (hok
     cases hout : (callMethod d true act (some (childOf d h.single))).2 with
     | ok =>
       have hacc : acceptedM (metricOf d h) (.call i .none act) = some (.call i .none act) := by
-        simp [acceptedM, stepM, stepCall, hs, hl, metricOf, hout]
+        simp [acceptedM, stepM, stepCall, hl, metricOf, hout]
       rw [hacc]
       refine ⟨?_, ?_⟩
       · simp [stepM, stepCall, metricOf, hl, recOpt, recordOn, keyOf, callMethod_some, childOf_snoc]
@@ -184,7 +184,7 @@ theorem stepM_none_abs (d : Decl V) (h : Hist V) (i : Nat) (act : Action V) (hok
         · subst ha; exact okAct_of_ok d _ _ hout
     | raised e =>
       have hacc : acceptedM (metricOf d h) (.call i .none act) = none := by
-        simp [acceptedM, stepM, stepCall, hs, hl, metricOf, hout, Op.touchOf]
+        simp [acceptedM, stepM, stepCall, hl, metricOf, hout, Op.touchOf]
       rw [hacc]
       refine ⟨?_, hok⟩
       simp [stepM, stepCall, metricOf, hl, recOpt, callMethod_some, upd_of_raised d act _ e hout]
